@@ -611,3 +611,11 @@ func (a Atom) String() string {
 // Facts exposes the packet-length knowledge of a state: Prove(len <= k) / Prove(len >= k).
 func (s *State) ProvesLenAtMost(k int64) bool { return s.Prove(lin.Const(k).Sub(lin.Var(0))) }
 func (s *State) ProvesLenAtLeast(k int64) bool { return s.Prove(lin.Var(0).AddK(-k)) }
+
+// SymRange returns the interval currently known for a symbol.
+func (s *State) SymRange(a lin.Atom) Interval {
+	if iv, ok := s.iv[a]; ok {
+		return iv
+	}
+	return Interval{negInf, posInf}
+}
